@@ -4,7 +4,8 @@
      queue   = name parent(0 = "") allocatedPods rl(cap) rl(deserved) rl(guarantee)
      rl      = n (dim amount)*n
      request = 1 name parent rl rl rl | 2 name parent rl rl rl | 3 name | 4 name pods
-   sel 1 answers  (tag(i) verdict_i)*  tag(900) final queue set (names ascending).
+   sel 1 answers  (tag(i) verdict_i)*  tag(900) final queue set (names ascending)
+                  tag(901) whether the capacity plugin accepts that queue set.
    sel 101..105 take the history followed by the implementation's verdict list. *)
 From stdpp Require Import gmap.
 From Coq Require Import ZArith List.
@@ -58,7 +59,8 @@ Fixpoint eVerdicts (i : Z) (vs : list verdict) : list Z :=
   end.
 
 Definition run_entry (c : cfg) (Q0 : queues) (rs : list req) : list Z :=
-  eVerdicts 1 (verdicts c Q0 rs) ++ tag 900 ++ eState (run_history c Q0 rs).
+  eVerdicts 1 (verdicts c Q0 rs) ++ tag 900 ++ eState (run_history c Q0 rs) ++
+  tag 901 ++ eBool (capacity_ready (run_history c Q0 rs)).
 
 Definition law_entry (f : cfg -> queues -> list req -> list Z -> bool) (toks : list Z) : list Z :=
   match run_dec (let* h := dHistory in let* vs := dList dZ in ret (h, vs)) toks with
@@ -77,5 +79,9 @@ Definition entry (sel : Z) (toks : list Z) : list Z :=
   | 103 => law_entry law_sums toks
   | 104 => law_entry law_caps toks
   | 105 => law_entry law_delete toks
+  | 106 => match run_dec (let* h := dHistory in let* vs := dList dZ in let* rd := dZ in ret (h, vs, rd)) toks with
+           | Some (c, q, rs, vs, rd) => eBool (law_capacity c q rs vs rd)
+           | None => bad_input
+           end
   | _ => bad_input
   end.
